@@ -158,7 +158,37 @@ func newCluster(servers, maxShard, maxLimit int, ports []int, useed uint64, retr
 		panic(err)
 	}
 	c := &clu{dir: dir, maxLimit: maxLimit, retries: retries}
-	if len(ports) != servers || !portsFree(ports) {
+	var lns []net.Listener
+	if retries > 0 {
+		// fault cluster: the harness owns the listeners, so it opens them first and keeps them (no
+		// window in which somebody else could take a port); recorded ports are reused if still free
+		ok := len(ports) == servers
+		for i := 0; ok && i < servers; i++ {
+			l, err := net.Listen("tcp", "127.0.0.1:"+strconv.Itoa(ports[i]))
+			if err != nil {
+				ok = false
+				break
+			}
+			lns = append(lns, l)
+		}
+		if !ok {
+			if len(ports) > 0 {
+				fmt.Fprintln(os.Stderr, "c17: recorded ports are not free, shard owners may differ from the recording")
+			}
+			for _, l := range lns {
+				l.Close()
+			}
+			lns, ports = nil, nil
+			for i := 0; i < servers; i++ {
+				l, err := net.Listen("tcp", "127.0.0.1:0")
+				if err != nil {
+					panic(err)
+				}
+				lns = append(lns, l)
+				ports = append(ports, l.Addr().(*net.TCPAddr).Port)
+			}
+		}
+	} else if len(ports) != servers || !portsFree(ports) {
 		if len(ports) > 0 {
 			fmt.Fprintln(os.Stderr, "c17: recorded ports are not free, shard owners may differ from the recording")
 		}
@@ -184,7 +214,7 @@ func newCluster(servers, maxShard, maxLimit int, ports []int, useed uint64, retr
 			panic(err)
 		}
 		if retries > 0 {
-			fn, rc, err := serveNode(n, c.names[i])
+			fn, rc, err := serveNode(n, lns[i])
 			if err != nil {
 				panic(err)
 			}
